@@ -139,6 +139,59 @@ Proof.
   split; [|split]; eexists; (split; [vm_compute; reflexivity|]); repeat split; vm_compute; reflexivity.
 Qed.
 
+(** Since repair f5d4a34 (F-C07f fixed): a text the argument's own type rejects
+    is a ParseError whichever exception the type raises.  [ctx_o]: a float
+    parameter (ValueError on "abc", converts "2.5") and a bytes parameter
+    (TypeError on every text), with the oracle of the texts used here. *)
+Definition ctx_o : ctxspec :=
+  mkCtx (Some "o") []
+    [mkArg ["ratio"; "r"] (KOther "float" CFailV [("2.5", COk "2.5")]) (AStr "<float 1.5>")
+           false false false None;
+     mkArg ["data"; "d"] (KOther "bytes" CFailT []) (AStr "<bytes b'x'>") false false false None].
+
+Lemma other_kind_value_is_parse_error :
+  c07_guard [ctx_o] (Some core_ctx) = true /\
+  parser_parse [ctx_o] (Some core_ctx) false ["o"; "--ratio"; "abc"] = Err EParse /\
+  parser_parse [ctx_o] (Some core_ctx) false ["o"; "-d"; "ab"] = Err EParse /\
+  spec_ok [ctx_o] (Some core_ctx) false ["o"; "-d"; "ab"] (model_parse [ctx_o] ICore false ["o"; "-d"; "ab"]) = true /\
+  exists r, parser_parse [ctx_o] (Some core_ctx) false ["o"; "-r"; "2.5"] = Ok r /\
+            map obs_of_ctx (tl (pr_ctxs r)) = [(Some "o", [("ratio", AStr "<float 2.5>"); ("data", AStr "<bytes b'x'>")])].
+Proof.
+  split; [vm_compute; reflexivity|]. split; [vm_compute; reflexivity|].
+  split; [vm_compute; reflexivity|]. split; [vm_compute; reflexivity|].
+  eexists. split; vm_compute; reflexivity.
+Qed.
+
+(** Historical record (F-C07f, fixed): [checked_old] is the guarded assignment
+    before f5d4a34, which caught ValueError only; the TypeError of [bytes("ab")]
+    escaped parse_argv. *)
+Definition checked_old (r : result machine) : result machine :=
+  match r with Err EValue => Err EParse | _ => r end.
+
+Lemma type_error_historical_refuted :
+  exists m f, set_arg_value m f (IStr "ab") true = Err EType /\
+              checked_old (set_arg_value m f (IStr "ab") true) = Err EType /\
+              checked (set_arg_value m f (IStr "ab") true) = Err EParse.
+Proof.
+  exists (mkM [init_ctx core_ctx; init_ctx ctx_o] true (Some 1) [0] (Some (1, 1)) false SContext []), (1, 1).
+  repeat split; vm_compute; reflexivity.
+Qed.
+
+(** F-C07e: a counter ([incrementable]) whose default is not a number --
+    [@task(incrementable=['v']) def t(c, v=None)] -- makes "-v" raise TypeError
+    ([None + 1]) out of parse_argv: the assignment in [switch_to_flag] is not
+    guarded.  The guard of [only_parse_errors] ("counters start from a number")
+    is exactly the complement. *)
+Definition ctx_badcounter : ctxspec :=
+  mkCtx (Some "t") [] [mkArg ["v"] KStr ANone false false true None].
+
+Lemma refuted_counter :
+  c07_guard [ctx_badcounter] (Some core_ctx) = false /\
+  parser_parse [ctx_badcounter] (Some core_ctx) false ["t"; "-v"] = Err EType /\
+  spec_ok [ctx_badcounter] (Some core_ctx) false ["t"; "-v"]
+          (model_parse [ctx_badcounter] ICore false ["t"; "-v"]) = false.
+Proof. repeat split; vm_compute; reflexivity. Qed.
+
 (** ** Bounded sweep (a test): every command line of at most [n] tokens over a
     14-token alphabet against the two tasks above and the real core context.
     The model's outcome satisfies the complete [spec_ok] -- no exemption since
